@@ -711,6 +711,17 @@ def _xml_safe_head(name):
     return _XML_UNSAFE.split(name, 1)[0]
 
 
+def _xml_same_name(name, xml_name):
+    """A name as the report may show it: characters XML cannot hold are re-written by the reporter
+    (how is not specified), everything else must be there unchanged."""
+    if name == xml_name:
+        return True
+    segs = re.split(u"[\\x00-\\x08\\x0b-\\x1f\\x7f-\\x9f\\ufffe\\uffff]", name or u"")
+    if len(segs) == 1 or xml_name is None:
+        return False
+    return re.fullmatch(u".*?".join(re.escape(x) for x in segs), xml_name, re.S) is not None
+
+
 def check_C16(world, hist, pred):
     out = []
     if hist.get("config_error") or not world["cfg"].get("junit"):
@@ -763,9 +774,9 @@ def check_C16(world, hist, pred):
         want = [n for n in scen if n["status"] != "skipped" or show_skipped]
         got = [(c.get("name"), c.get("status")) for c in cases]
         wl = [(n["name"], n["status"]) for n in want]
-        if got != wl:
+        if len(got) != len(wl) or not all(_xml_same_name(w[0], g[0]) and w[1] == g[1] for g, w in zip(got, wl)):
             k = 0
-            while k < min(len(got), len(wl)) and got[k] == wl[k]:
+            while k < min(len(got), len(wl)) and _xml_same_name(wl[k][0], got[k][0]) and got[k][1] == wl[k][1]:
                 k += 1
             out.append(V("C16", "testcases-vs-scenarios", "differs", file=fname, at=k,
                          xml=got[k:k + 2], census=wl[k:k + 2], n_xml=len(got), n_census=len(wl)))
